@@ -34,6 +34,45 @@ pub fn str_starts_with_whitespace(text: &str) -> (r: bool)
     text.starts_with(|c: char| c.is_whitespace())
 }
 
+/// A-MEM-TAKE (trusted): `std::mem::take(dest)` returns the old value and leaves `T::default()` behind (std
+/// documentation: `replace(dest, T::default())`); what is left behind is specified through the contract of the type's
+/// `Default::default` (vstd: `bool::default()` is `false`). Same text as prelude/cln_specs.rs.
+pub assume_specification<T: std::default::Default>[ std::mem::take ](dest: &mut T) -> (r: T)
+    ensures
+        r == *old(dest),
+        call_ensures(T::default, (), *final(dest)),
+;
+
+/// the text behind its leading blanks (U+0020 only: `str::trim_start_matches(' ')`)
+pub open spec fn skip_blanks(s: Seq<char>) -> Seq<char>
+    decreases s.len(),
+{
+    if s.len() > 0 && s[0] == ' ' {
+        skip_blanks(s.skip(1))
+    } else {
+        s
+    }
+}
+
+/// C01/C02: a comment text that the tokenizer reads as a LINE comment: behind leading blanks it starts with `//`.
+/// Such a comment ends only at the next line break: whatever is written behind it on the same line becomes a part of it.
+pub open spec fn is_line_comment_text(s: Seq<char>) -> bool {
+    let t = skip_blanks(s);
+    t.len() >= 2 && t[0] == '/' && t[1] == '/'
+}
+
+/// R11 helper for `text.trim_start_matches(' ').starts_with(pat)` with a string literal `pat` (the literal stays an
+/// argument, so an edit of the literal reaches the verifier). A-WR-TRIM-STARTS (trusted): `trim_start_matches(' ')` drops
+/// exactly the leading U+0020 characters; `starts_with(&str)` is "the pattern is a prefix" (character level: both texts are
+/// valid UTF-8 and UTF-8 is prefix-free, so byte prefix == character prefix).
+#[verifier::external_body]
+pub fn str_trim_blanks_starts_with(text: &str, pat: &str) -> (r: bool)
+    ensures
+        r == pat@.is_prefix_of(skip_blanks(text@)),
+{
+    text.trim_start_matches(' ').starts_with(pat)
+}
+
 pub mod wr_axioms {
 use vstd::prelude::*;
 use vstd::std_specs::iter::FromIteratorSpec;
